@@ -612,7 +612,22 @@ fn check_differential(ex: &Exchange, h: &StandardCupv2Handler, pk: &PublicKeys, 
     }
 }
 
+/// Half of the cases run with a tracing subscriber installed (the production configuration: with none, the arguments of
+/// log statements are never evaluated and a panic inside one stays hidden).
 pub fn case(t: &mut Tape, ctx: &CaseCtx) -> CaseResult {
+    let log_on = {
+        let mut probe = t.clone();
+        let _ = probe.choose(3);
+        gen_exchange(&mut probe).nonce[1] & 1 == 1
+    };
+    let mut r = crate::sim::logsub::with_logging(log_on, || case_inner(t, ctx));
+    if let Ok(rep) = r.as_mut() {
+        rep.classes.push(if log_on { "logging_on" } else { "logging_off" });
+    }
+    r
+}
+
+fn case_inner(t: &mut Tape, ctx: &CaseCtx) -> CaseResult {
     let mode = t.choose(3);
     let ex = gen_exchange(t);
     let (h, pk) = handler_for(&ex)?;
